@@ -3,6 +3,7 @@
    Statements only: every proof is `exact lemma` (lemmas in Res/PipelineProofs.v).
    These theorems extend the coverage of C02, C11, C19, C01 and C07 to whole builds. *)
 From KV Require Import Res.Pipeline Res.PipelineProofs Res.PipelineOrderProofs Res.PipelineFrameProofs Res.PipelineGenProofs Res.PipelinePermProofs.
+From KV Require Import Res.PipelineWfProofs Res.PipelineFixProofs.
 From KV Require Res.Generators Res.Hash.
 From KV Require Import Yaml.FieldSpecSpec Yaml.FieldSpecProofs.
 From KV Require Res.Labels Res.Hygiene.
@@ -42,3 +43,91 @@ Theorem PIPE_ids_unique_fifo_partial :
     distinct_node_ids outs.
 Proof. exact build_ids_unique_fifo_partial. Qed.
 Print Assumptions PIPE_ids_unique_fifo_partial.
+
+
+(* ---------- C07_ids_unique over the whole build ---------- *)
+
+(* For every tree of well-formed documents ([tree_wf], Res/PipelineWfProofs.v: the domain of
+   PIPE_accumulate_ids_distinct) the outputs of a successful build have pairwise distinct ids. The steps done once at
+   the top are covered: the hash suffixes (the HashTransformer renames without re-checking: all hashes have 10
+   characters, so two hashed names only clash when the names clashed before; a hashed name can still hit a resource
+   that keeps its name - [no_plain_clash], the guard the C07 finding forces), IgnoreLocal (only removes) and the
+   sort (legacy: re-Append, so no guard at all; otherwise nothing is re-checked). *)
+Theorem C07_ids_unique_build :
+  forall nonstr o t outs,
+    tree_wf t -> build nonstr o t = Ok outs ->
+    (match o with
+     | PSortLegacy _ _ => True
+     | _ => forall m m1, accumulate nonstr t = Ok m -> mapM (hash_res nonstr) m = Ok m1 -> no_plain_clash m1
+     end) ->
+    distinct_node_ids outs.
+Proof. exact build_ids_unique_wf. Qed.
+Print Assumptions C07_ids_unique_build.
+
+(* the hash step alone, on a map of well-formed resources with distinct ids *)
+Theorem C07_ids_unique_hash_step :
+  forall nonstr m m1,
+    Forall W m -> distinct_ids m -> mapM (hash_res nonstr) m = Ok m1 -> no_plain_clash m1 ->
+    Forall W m1 /\ distinct_ids m1.
+Proof. exact hash_step_distinct. Qed.
+Print Assumptions C07_ids_unique_hash_step.
+
+
+(* ---------- C07_fixpoint over the whole build ---------- *)
+
+(* Building the output of a build again - as a kustomization without directives whose only resources entry is one
+   file holding the emitted documents - returns it unchanged:  build (leaf (build t)) = build t,  for EVERY tree
+   (no well-formedness needed: IgnoreLocal re-validates).  [pre] are the documents the first build hands to its final
+   annotation removal, [map strip_node pre] its output.  Guards:
+     * [meta_clean]: metadata has one annotations field with distinct keys (true of every document a YAML parser
+       accepts; the node type can represent repeated keys, on which the removal is not idempotent);
+     * legacy order: the order decides every pair of outputs with different ids ([node_order_total]; holds for the ids
+       C11 calls valid: LegacySortProofs.less_total) - otherwise sort.Sort / insertion sort may permute equal keys;
+       fifo / no order: the output ids are pairwise distinct - EXACTLY what the C07 finding (a local-config resource
+       named like a hashed generated one) violates, so it cannot be dropped (that no output carries local-config then
+       follows: a local-config resource survives IgnoreLocal only by sharing its id with a kept one);
+       C07_ids_unique_build discharges it for well-formed trees without a plain clash;
+     * the name-reference pass of the second build leaves the loaded documents alone (all candidates have an empty
+       rename history, so no reference is rewritten; what remains is that the traversal of the reference paths
+       neither fails nor promotes a null - not proved in general, stated as a hypothesis).
+   Byte level (emitter / parser) is outside the model: oracles on the implementation. *)
+Theorem C07_fixpoint_build :
+  forall nonstr o t pre rules name,
+    build_pre nonstr o t = Ok pre ->
+    Forall meta_clean pre ->
+    let outs := map strip_node pre in
+    (match o with
+     | PSortLegacy first last => node_order_total first last outs
+     | _ => distinct_node_ids outs
+     end) ->
+    pipe_rules = Ok rules ->
+    nameref_transform pipe_cs nonstr rules (map load outs) = Ok (map load outs) ->
+    build nonstr o (leaf name outs) = Ok outs.
+Proof. exact build_fixpoint. Qed.
+Print Assumptions C07_fixpoint_build.
+
+(* [build_pre] is the build up to the final removal *)
+Theorem C07_build_pre_spec :
+  forall nonstr o t, build nonstr o t = (do pre <- build_pre nonstr o t; Ok (map strip_node pre)).
+Proof. exact build_pre_spec. Qed.
+Print Assumptions C07_build_pre_spec.
+
+(* the removal is idempotent on documents *)
+Theorem C07_strip_node_idempotent :
+  forall n, meta_clean n -> strip_node (strip_node n) = strip_node n.
+Proof. exact strip_node_idem. Qed.
+Print Assumptions C07_strip_node_idempotent.
+
+(* why the name-reference hypothesis of C07_fixpoint_build is mild: a resource read from a file has an empty rename
+   history, and against candidates with an empty history Filter.set never rewrites a reference (selectReferral only
+   selects a candidate one of whose PREVIOUS ids carries the referenced name) *)
+Theorem C07_nameref_history_free_pure :
+  forall nonstr x cands n n',
+    history_free cands -> nr_set nonstr x cands n = Ok n' -> n' = n.
+Proof. exact nr_set_history_free. Qed.
+Print Assumptions C07_nameref_history_free_pure.
+
+Theorem C07_loaded_candidates_history_free :
+  forall n c, view pipe_cs (load n) = Ok c -> c_prev c = [].
+Proof. exact view_loaded. Qed.
+Print Assumptions C07_loaded_candidates_history_free.
